@@ -180,7 +180,8 @@ def _make_nac(ph, name, k):
         t1 = np.array([[90, 35, 3], [-59, 49, -118], [-9, 24, 83]]) * u * (1 + k / 8)
         t3 = np.array([[-17, 5, 66], [12, 77, -8], [41, -30, 20]]) * u * (1 + k / 8)
         return dict(born=np.array([t1, -(t1 + t3), t3]),
-                    dielectric=np.array([[200, 12, -7], [12, 260, 20], [-7, 20, 300]]) * u * (1 + k / 8))
+                    # (not symmetric on purpose: nothing in P1 symmetrises it, and a transposed tensor must show)
+                    dielectric=np.array([[200, 12, -7], [16, 260, 20], [-3, 28, 300]]) * u * (1 + k / 8))
     if name == "p4" and n == 8:
         T = np.array([[90, 35, 3], [-59, -49, -118], [-109, -124, -83]]) * u + np.eye(3) * k / 8
         born = []
